@@ -89,14 +89,17 @@ static const uint64_t pow10lst[POW10LST_COUNT] = {
 
 #define SNUM2STR(_num, _type, _buf, _size, _size_ret) do {		\
 	size_t _len, _neg = 0;						\
+	uint64_t _unum;							\
 	if (NULL == (_buf) || 0 == (_size))				\
 		return (EINVAL);					\
-	if (0 > (_num)) {						\
-		(_num) = - (_num);					\
+	if (0 > (_num)) { /* Magnitude as unsigned: -MIN overflows. */	\
+		_unum = (((uint64_t)0) - ((uint64_t)(_num)));		\
 		_neg = 1;						\
+	} else {							\
+		_unum = ((uint64_t)(_num));				\
 	}								\
 	for (_len = 1;							\
-	     _len < POW10LST_COUNT && ((uint64_t)(_num)) >= pow10lst[_len]; \
+	     _len < POW10LST_COUNT && _unum >= pow10lst[_len];		\
 	     _len ++)							\
 		;							\
 	_len += _neg;							\
@@ -113,9 +116,9 @@ static const uint64_t pow10lst[POW10LST_COUNT] = {
 	(*(_buf)) = 0;							\
 	do {								\
 		(_buf) --;						\
-		(*(_buf)) = (_type)('0' + ((_num) % 10));		\
-		(_num) /= 10;						\
-	} while ((_num));						\
+		(*(_buf)) = (_type)('0' + (_unum % 10));		\
+		_unum /= 10;						\
+	} while (_unum);						\
 	if (NULL != (_size_ret)) {					\
 		*(_size_ret) = _len;					\
 	}								\
